@@ -1,0 +1,240 @@
+//! Verification hooks (only compiled with `--cfg arc_swap_verif`).
+//!
+//! Drop-in replacements for the atomics used by the crate. Every operation first passes through a
+//! process-global *gate* (a function pointer installed by the verification harness, no-op by
+//! default), which lets the harness serialise the atomic steps of several threads in a prescribed
+//! order (replay of solver-found schedules) and log them. The operation itself is then performed
+//! on the real `core` atomic with the ordering the caller asked for.
+#![allow(missing_docs, clippy::missing_safety_doc)]
+
+use core::fmt::{Debug, Formatter, Result as FmtResult};
+use core::sync::atomic::{self, Ordering};
+
+/// Kind of the gated operation.
+#[derive(Copy, Clone, Debug, Eq, PartialEq)]
+#[repr(u8)]
+pub enum Op {
+    Load = 0,
+    Store = 1,
+    Swap = 2,
+    Cas = 3,
+    Add = 4,
+    Sub = 5,
+}
+
+/// `enter(op, address, ordering)` is called before and `exit(op, address, value read, value
+/// written or usize::MAX when nothing was written)` after every atomic operation of the crate.
+#[derive(Copy, Clone)]
+pub struct Gate {
+    pub enter: fn(Op, usize, Ordering),
+    pub exit: fn(Op, usize, usize, usize),
+}
+
+fn no_enter(_: Op, _: usize, _: Ordering) {}
+fn no_exit(_: Op, _: usize, _: usize, _: usize) {}
+
+static GATE_ENTER: atomic::AtomicUsize = atomic::AtomicUsize::new(0);
+static GATE_EXIT: atomic::AtomicUsize = atomic::AtomicUsize::new(0);
+
+/// Install (or, with `None`, remove) the gate.
+pub fn set_gate(gate: Option<Gate>) {
+    match gate {
+        Some(g) => {
+            GATE_EXIT.store(g.exit as usize, Ordering::SeqCst);
+            GATE_ENTER.store(g.enter as usize, Ordering::SeqCst);
+        }
+        None => {
+            GATE_ENTER.store(0, Ordering::SeqCst);
+            GATE_EXIT.store(0, Ordering::SeqCst);
+        }
+    }
+}
+
+#[inline]
+fn enter(op: Op, addr: usize, ord: Ordering) {
+    let f = GATE_ENTER.load(Ordering::Relaxed);
+    if f != 0 {
+        let f: fn(Op, usize, Ordering) = unsafe { core::mem::transmute(f) };
+        f(op, addr, ord);
+    } else {
+        no_enter(op, addr, ord);
+    }
+}
+
+#[inline]
+fn exit(op: Op, addr: usize, read: usize, written: usize) {
+    let f = GATE_EXIT.load(Ordering::Relaxed);
+    if f != 0 {
+        let f: fn(Op, usize, usize, usize) = unsafe { core::mem::transmute(f) };
+        f(op, addr, read, written);
+    } else {
+        no_exit(op, addr, read, written);
+    }
+}
+
+const NOWRITE: usize = usize::MAX;
+
+#[derive(Default)]
+#[repr(transparent)]
+pub struct AtomicUsize(atomic::AtomicUsize);
+
+impl Debug for AtomicUsize {
+    fn fmt(&self, f: &mut Formatter) -> FmtResult {
+        Debug::fmt(&self.0, f)
+    }
+}
+
+impl AtomicUsize {
+    pub const fn new(v: usize) -> Self {
+        AtomicUsize(atomic::AtomicUsize::new(v))
+    }
+    #[inline]
+    fn addr(&self) -> usize {
+        self as *const _ as usize
+    }
+    pub fn get_mut(&mut self) -> &mut usize {
+        self.0.get_mut()
+    }
+    /// Ungated read, for snapshots.
+    pub fn raw_load(&self) -> usize {
+        self.0.load(Ordering::SeqCst)
+    }
+    pub fn load(&self, ord: Ordering) -> usize {
+        enter(Op::Load, self.addr(), ord);
+        let r = self.0.load(ord);
+        exit(Op::Load, self.addr(), r, NOWRITE);
+        r
+    }
+    pub fn store(&self, v: usize, ord: Ordering) {
+        enter(Op::Store, self.addr(), ord);
+        self.0.store(v, ord);
+        exit(Op::Store, self.addr(), 0, v);
+    }
+    pub fn swap(&self, v: usize, ord: Ordering) -> usize {
+        enter(Op::Swap, self.addr(), ord);
+        let r = self.0.swap(v, ord);
+        exit(Op::Swap, self.addr(), r, v);
+        r
+    }
+    pub fn fetch_add(&self, v: usize, ord: Ordering) -> usize {
+        enter(Op::Add, self.addr(), ord);
+        let r = self.0.fetch_add(v, ord);
+        exit(Op::Add, self.addr(), r, r.wrapping_add(v));
+        r
+    }
+    pub fn fetch_sub(&self, v: usize, ord: Ordering) -> usize {
+        enter(Op::Sub, self.addr(), ord);
+        let r = self.0.fetch_sub(v, ord);
+        exit(Op::Sub, self.addr(), r, r.wrapping_sub(v));
+        r
+    }
+    pub fn compare_exchange(
+        &self,
+        cur: usize,
+        new: usize,
+        s: Ordering,
+        f: Ordering,
+    ) -> Result<usize, usize> {
+        enter(Op::Cas, self.addr(), s);
+        let r = self.0.compare_exchange(cur, new, s, f);
+        match r {
+            Ok(o) => exit(Op::Cas, self.addr(), o, new),
+            Err(o) => exit(Op::Cas, self.addr(), o, NOWRITE),
+        }
+        r
+    }
+    /// The weak form never fails spuriously under the hooks (a replayed schedule says which
+    /// operations succeed; spurious failures are modelled by the symbolic engine instead).
+    pub fn compare_exchange_weak(
+        &self,
+        cur: usize,
+        new: usize,
+        s: Ordering,
+        f: Ordering,
+    ) -> Result<usize, usize> {
+        self.compare_exchange(cur, new, s, f)
+    }
+}
+
+#[repr(transparent)]
+pub struct AtomicPtr<T>(atomic::AtomicPtr<T>);
+
+impl<T> Default for AtomicPtr<T> {
+    fn default() -> Self {
+        AtomicPtr(atomic::AtomicPtr::default())
+    }
+}
+
+impl<T> Debug for AtomicPtr<T> {
+    fn fmt(&self, f: &mut Formatter) -> FmtResult {
+        Debug::fmt(&self.0, f)
+    }
+}
+
+impl<T> AtomicPtr<T> {
+    pub const fn new(v: *mut T) -> Self {
+        AtomicPtr(atomic::AtomicPtr::new(v))
+    }
+    #[inline]
+    fn addr(&self) -> usize {
+        self as *const _ as usize
+    }
+    pub fn get_mut(&mut self) -> &mut *mut T {
+        self.0.get_mut()
+    }
+    pub fn load(&self, ord: Ordering) -> *mut T {
+        enter(Op::Load, self.addr(), ord);
+        let r = self.0.load(ord);
+        exit(Op::Load, self.addr(), r as usize, NOWRITE);
+        r
+    }
+    pub fn store(&self, v: *mut T, ord: Ordering) {
+        enter(Op::Store, self.addr(), ord);
+        self.0.store(v, ord);
+        exit(Op::Store, self.addr(), 0, v as usize);
+    }
+    pub fn swap(&self, v: *mut T, ord: Ordering) -> *mut T {
+        enter(Op::Swap, self.addr(), ord);
+        let r = self.0.swap(v, ord);
+        exit(Op::Swap, self.addr(), r as usize, v as usize);
+        r
+    }
+    pub fn compare_exchange(
+        &self,
+        cur: *mut T,
+        new: *mut T,
+        s: Ordering,
+        f: Ordering,
+    ) -> Result<*mut T, *mut T> {
+        enter(Op::Cas, self.addr(), s);
+        let r = self.0.compare_exchange(cur, new, s, f);
+        match r {
+            Ok(o) => exit(Op::Cas, self.addr(), o as usize, new as usize),
+            Err(o) => exit(Op::Cas, self.addr(), o as usize, NOWRITE),
+        }
+        r
+    }
+    /// See [`AtomicUsize::compare_exchange_weak`].
+    pub fn compare_exchange_weak(
+        &self,
+        cur: *mut T,
+        new: *mut T,
+        s: Ordering,
+        f: Ordering,
+    ) -> Result<*mut T, *mut T> {
+        self.compare_exchange(cur, new, s, f)
+    }
+}
+
+/// One node of the debt list as seen at this instant (not atomic as a whole).
+#[derive(Clone, Debug, Default)]
+pub struct NodeSnapshot {
+    pub addr: usize,
+    pub in_use: usize,
+    pub active_writers: usize,
+    pub fast: [usize; 8],
+    pub helping: usize,
+    pub control: usize,
+}
+
+pub use crate::debt::verif::{generation, node_snapshot, set_generation};
